@@ -37,7 +37,8 @@ package mkvs
 // ---- commit (C13): a root is persisted only if it is the one the caller was told to reach ----
 
 //@ func tree.commitWithHooks
-//@   props C13
+//@   props C13 C02
+//@   note (C02) the write log a commit hands out is what another tree replays to arrive at the SAME root: every pending entry that ends with a value - also an EMPTY one - is in it (seed C02_c dropped new keys with an empty value from the log: the replaying tree lacked the key and computed another root)
 //@   requires t != nil && t.cache != nil
 //@   precall db/api\.Batch\)\.Commit$ :: !opts.noPersist && (beforeDbCommit == nil || ufb("fnAccepts", beforeDbCommit, rootHash)) && root.Hash == rootHash && db.GBatchCommits == old(db.GBatchCommits)
 //@   ensures err == nil && beforeDbCommit != nil ==> ufb("fnAccepts", beforeDbCommit, result1)
@@ -295,14 +296,18 @@ package mkvs
 //@   note (C02) the marked insert position of a list never keeps referring to an element that was taken out of the list: inserting "after" a removed element silently fails (container/list returns nil), the node is then counted but in no list, the counts creep up to the capacity, and the next fetch evicts clean ancestors of the path being updated - a commit then hashes a dead pointer and returns a wrong root without an error (seed C02_b compared with the OTHER list's marked position)
 //@   note LRU bookkeeping only: the pointer leaves the eviction list and keeps its node, dirty flag and hash
 
+//@ ghost var GUseNode int
+
 //@ func cache.derefNodePtr
 //@   props C04 C03
+//@   note (C03) every dereference of a pointer - also of one whose node is already in memory - first moves it to the front of its eviction list: the nodes on the path an insert or a removal is descending are the most recently used ones, so making room for a node fetched further down evicts OTHER nodes, not an ancestor the operation still holds (seed C03_j marked only freshly fetched nodes: a full cache evicted the root under a descending insert, the unwinding update then marked a pointer with no node dirty, and whole subtrees vanished)
 //@   requires c != nil
 //@   ensures err == nil && GRemoteSyncs > old(GRemoteSyncs) ==> result0 != nil
 //@   ensures old(ptr != nil && ptr.Node != nil && (!ptr.Clean || ptr.Hash != hash.EmptyHash())) && err == nil ==> result0 != nil
 //@   ensures result0 != nil ==> ptr != nil
 //@   note (C03) a pointer whose node is in memory never dereferences to "no node", whatever the cache evicted: callers (doGet, doInsert, doRemove, the iterator) treat a nil node as an EMPTY subtree. This fails on the pinned tree for a DIRTY internal node whose attached leaf (the key that is a prefix of the subtree's keys) was evicted from the value cache: known finding F10
 //@   note when the node had to be fetched from the remote peer (remoteSync was called) and no error is returned, a node is returned: a peer's proof that verifies but does not carry the requested node cannot make a present key look absent
+//@   ensures ptr != nil ==> GUseNode > old(GUseNode)
 
 //@ func cache.remoteSync
 //@   props C04
